@@ -124,10 +124,24 @@ def mode_ignored_somewhere(f, p):
     return bad
 
 
+def residue_definition_rule(ctx, rule):
+    """what a residue is (shared: the altloc filters and the bond classification of the PDBx converter stand on it)"""
+    def starts_spec(mask):
+        st = f"np.where({mask})[0] + 1"
+        return (f"(np.array([0], dtype=int) if add_exclusive_stop else np.array([], dtype=int)) if array.array_length() == 0 else "
+                f"(np.concatenate(([0], {st}, [array.array_length()])) if add_exclusive_stop else np.concatenate(([0], {st})))")
+    res_mask = " | ".join(f"(array.{a}[1:] != array.{a}[:-1])" for a in ("chain_id", "res_id", "ins_code", "res_name"))
+    check_spec(ctx, rule, RES, "get_residue_starts", starts_spec(res_mask),
+               "a residue starts at 0 and at i+1 wherever chain_id, res_id, ins_code or res_name differ between atoms i and i+1; "
+               "with add_exclusive_stop the array length is appended (also for an empty array: [0])")
+
+
 def run(ctx):
     # the segment functions read annotation arrays of equal length: a model taken out of a stack must not share the stack's table
     from .C01 import model_table_rule
     model_table_rule(ctx, "R6.model-has-its-own-table")
+    from .C01 import subarray_keeps_bonds_rule
+    subarray_keeps_bonds_rule(ctx, "R6.segment-keeps-bond-list")
     # every view of this property is laid over array_length() atoms and bonds.get_atom_count() atoms: both agree with the arrays
     from .C01 import length_rules
     length_rules(ctx, "R6")
@@ -142,10 +156,7 @@ def run(ctx):
         return (f"(np.array([0], dtype=int) if add_exclusive_stop else np.array([], dtype=int)) if array.array_length() == 0 else "
                 f"(np.concatenate(([0], {st}, [array.array_length()])) if add_exclusive_stop else np.concatenate(([0], {st})))")
 
-    res_mask = " | ".join(f"(array.{a}[1:] != array.{a}[:-1])" for a in ("chain_id", "res_id", "ins_code", "res_name"))
-    check_spec(ctx, "R1.residue-starts-definition", RES, "get_residue_starts", starts_spec(res_mask),
-               "a residue starts at 0 and at i+1 wherever chain_id, res_id, ins_code or res_name differ between atoms i and i+1; "
-               "with add_exclusive_stop the array length is appended (also for an empty array: [0])")
+    residue_definition_rule(ctx, "R1.residue-starts-definition")
     cha_mask = "(np.diff(array.res_id) < 0) | (array.chain_id[1:] != array.chain_id[:-1])"
     check_spec(ctx, "R1.chain-starts-definition", CHA, "get_chain_starts", starts_spec(cha_mask),
                "a chain starts at 0 and at i+1 wherever the chain id changes or the residue id decreases between atoms i and i+1; "
